@@ -686,6 +686,8 @@ var assumptions = []string{
 	"look-alike names: name components are compared by type and value (enc.Name.Equal); the store-level pass has its own universe of 8 packets / 23 operations (depth 3, direct and transaction mode) with sibling components that differ in type only (32=metadata / metadata, 32=item / item, v=1 / %01, seg=1 / off=1)",
 	"past-the-end packets (families tail, tailP, tailR): n = 1..3 segments (tailP: 2..5, thorough 2..6; window edge: 10 and 11 segments), buffer splits {L}, {L,L}, {0,L}, {0,0,L/2,L/2,L}; a version published twice is expected to be retrieved as its LATEST publication (the store overwrites packets of equal name; no cache in these scenarios); foreign packets are well-formed Data (blob, digest signature) put into the producer's store directly; the request stream is observed but an Interest beyond FinalBlockId is not by itself a violation (the property speaks of what the callback reports): it becomes one only when the fetch then fails within the retry budget, delivers other bytes or completes more than once",
 	"store transaction mode: every Put is preceded by Begin / Put of a decoy (same name, version+1000, other bytes) / Rollback; a rolled-back packet must never be returned",
+	"store mixed mode: every history of depth <= 3 (main and version-boundary universe; look-alike and prefix-related universes depth 2, thorough 3) in every assignment of D/T/G to its Puts - D outside any transaction, T a transaction of its own after a rolled-back decoy transaction, G consecutive Puts inside one transaction (as Client.Produce writes an object) - so that Puts outside transactions follow committed and rolled-back transactions in every order; same plain-map reference",
+	"queue capacities (family burst and every client step of every family): the consumer client's outpipe/seginpipe/segfetch are replaced by channels with 64 more slots (hook VerifGrowQueues; all sends on them are plain blocking sends, so capacity is not otherwise observable) and the production capacities are kept as logical ones; a client step after which a queue holds more than its production capacity is a send the client goroutine would block on for ever, being that queue's only reader (C15.once); an overflow caused by the application or an engine callback is back-pressure and ends the history without a verdict. Family burst: one fetch of a 3-segment object (window 2) or an 11-segment object (window 10) plus a burst of k Consume calls (quick k = 1..12 / {1,11}; thorough k = 1..40 / up to 100) made at any one point of the default schedule, ready select arms run in source order or in reverse; an application call that finds outpipe full waits until there is room",
 	"long objects (1000..1100 segments, scaled build: 4..4.4 kB) run on the default schedule only (k=0); thresholds other than those within 1000..1100 segments are not probed; the real-segment-size child runs 1025 segments (8.2 MB) in the thorough tier only",
 }
 
